@@ -138,6 +138,77 @@ def World.run (w : World V) : List Step → World V × List (List (Except String
     let rr := r.1.run rest
     (rr.1, r.2 :: rr.2)
 
+/-! ### live iterators
+
+`__iter__` is a generator function: every call of `iter(family)` creates a NEW generator object whose
+frame holds its own position in `self.names`; the family object holds no cursor.  A live iterator is
+modelled by the names it still has to yield (`done` is a ghost log of what it has yielded). -/
+
+structure LiveIter (V : Type) where
+  fam : Nat
+  done : List (String × Except String (Shape V))
+  rest : List String
+
+/-- what a user can do while iterations are alive -/
+inductive IStep where
+  | start (fam : Nat)            -- `it = iter(family)`; the new iterator gets the next free number
+  | next (it : Nat)              -- `next(it)`
+  | get (fam : Nat) (name : String)
+  | len (fam : Nat)              -- `len(family.names)`
+deriving Repr
+
+/-- answers of the interleaved steps -/
+inductive IAnswer (V : Type) where
+  | started (it : Nat)
+  | item (key : String) (shape : Except String (Shape V))
+  | stop                          -- StopIteration
+  | shape (s : Except String (Shape V))
+  | count (n : Nat)
+  | none                          -- no such family / iterator
+
+structure IState (V : Type) where
+  world : World V
+  iters : List (LiveIter V)
+
+/-- replace element `k` of a list -/
+def setNth {β : Type} : List β → Nat → β → List β
+  | [], _, _ => []
+  | _ :: t, 0, b => b :: t
+  | a :: t, k + 1, b => a :: setNth t k b
+
+def IState.step (s : IState V) : IStep → IState V × IAnswer V
+  | .start i =>
+    let names := match s.world.fams[i]? with
+      | some f => f.names
+      | none => []
+    ({ s with iters := s.iters ++ [⟨i, [], names⟩] }, .started s.iters.length)
+  | .next k =>
+    match s.iters[k]? with
+    | none => (s, .none)
+    | some it =>
+      match it.rest with
+      | [] => (s, .stop)
+      | key :: rest =>
+        let shape := match s.world.fams[it.fam]? with
+          | some f => f.getShape key
+          | none => .error "KeyError"
+        ({ s with iters := setNth s.iters k ⟨it.fam, it.done ++ [(key, shape)], rest⟩ }, .item key shape)
+  | .get i name =>
+    (s, match s.world.fams[i]? with
+        | some f => .shape (f.getShape name)
+        | none => .none)
+  | .len i =>
+    (s, match s.world.fams[i]? with
+        | some f => .count f.names.length
+        | none => .none)
+
+def IState.run (s : IState V) : List IStep → IState V × List (IAnswer V)
+  | [] => (s, [])
+  | st :: rest =>
+    let r := s.step st
+    let rr := r.1.run rest
+    (rr.1, r.2 :: rr.2)
+
 /-! ### `_KeyedDefaultDict` + `_doi_shape_collection_factory` -/
 
 /-- what the factory appends per DOI: tabulated families read from files, then family classes -/
